@@ -58,6 +58,7 @@ func init() {
 
 		// 5. senders use the primary, receivers try all keys
 		checkKeyUse(c)
+		checkKeyHandling(c, "C17")
 	})
 }
 
